@@ -32,6 +32,13 @@ fn ids() -> Vec<Id> {
     ]
 }
 
+/// Pairs of distinct members that share an address: a node restarted on the same address with a new
+/// generation (peers hold both incarnations until the old one is garbage collected), and two node
+/// ids behind one address.
+fn twins() -> Vec<(Id, Id)> {
+    vec![(Id::v4("twin", 1, 9_000), Id::v4("twin", 2, 9_000)), (Id::v4("twin-a", 1, 9_001), Id::v4("twin-b", 1, 9_001))]
+}
+
 fn describe(msg: &Msg) -> Value {
     let sl = |s: &str| if s.len() > 12 { format!("<{} bytes>", s.len()) } else { s.to_string() };
     let idd = |id: &Id| format!("{}#{}@{}", sl(&id.node_id), id.generation, id.addr);
@@ -233,7 +240,7 @@ fn many_member_digest(n: usize) -> Vec<DigestEntry> {
 /// Part 1: structural enumeration with small strings.
 pub fn structural(want: &[&str], max_ops: usize) -> Part {
     let mut part = Part::new(&format!("wire/structural(ops<={max_ops})"));
-    part.rule = format!("4 message kinds x digests of 0..3 members drawn from 6 ids (IPv4/IPv6, id lengths 0/1-2 chars/255/256/1600, generations 0..2^64-1) x every honest op sequence of length <= {max_ops} (member headers with 3 watermark/start shapes, 0-3 key-values of every status, SetMaxVersion tails, empty members, two members) x 5 block layouts of the independent encoder (honest, all raw, all compressed, 7-byte blocks, one 65535-byte block + trailing empty block); independent encoder -> real decoder -> message view must equal the AST and consume all bytes; messages without a delta are re-encoded by the real encoder, which must reproduce the same bytes and announce their exact count (the encode direction for deltas is the real-emissions part); non-trivial = messages carrying a delta or a non-empty digest");
+    part.rule = format!("4 message kinds x digests of 0..3 members drawn from 10 ids (IPv4/IPv6, id lengths 0/1-2 chars/255/256/1600, generations 0..2^64-1; plus messages naming two members that share an address: two generations of one node id, two node ids) x every honest op sequence of length <= {max_ops} (member headers with 3 watermark/start shapes, 0-3 key-values of every status, SetMaxVersion tails, empty members, two members) x 5 block layouts of the independent encoder (honest, all raw, all compressed, 7-byte blocks, one 65535-byte block + trailing empty block); independent encoder -> real decoder -> message view must equal the AST and consume all bytes; messages without a delta are re-encoded by the real encoder, which must reproduce the same bytes and announce their exact count (the encode direction for deltas is the real-emissions part); non-trivial = messages carrying a delta or a non-empty digest");
     let ids = ids();
     let seqs = op_sequences(max_ops, &ids);
     let dgs = digests(&ids);
@@ -253,6 +260,18 @@ pub fn structural(want: &[&str], max_ops: usize) -> Part {
     }
     for s in &seqs {
         msgs.push(Msg::Ack { ops: s.clone() });
+    }
+    for (a, b) in twins() {
+        let kv = |k: &str, ver: u64, st: u8| Op::Kv { key: k.into(), value: if st == 1 { String::new() } else { "v".into() }, version: ver, status: st };
+        let hdr = |id: &Id| Op::Node { id: id.clone(), gc: 0, from: 0 };
+        let de = |id: &Id, hb: u64| DigestEntry { id: id.clone(), heartbeat: hb, gc: 0, mv: 1 };
+        for (x, y) in [(&a, &b), (&b, &a)] {
+            msgs.push(Msg::Ack { ops: vec![hdr(x), kv("k", 1, 0), hdr(y), kv("k", 1, 0)] });
+            msgs.push(Msg::Ack { ops: vec![hdr(x), hdr(y)] });
+            msgs.push(Msg::Ack { ops: vec![hdr(x), Op::SetMax(3), hdr(y), kv("k", 2, 1)] });
+            msgs.push(Msg::SynAck { digest: vec![de(x, 1), de(y, 2)], ops: vec![hdr(x), kv("a", 1, 2), hdr(y), kv("b", 1, 0), kv("c", 2, 0)] });
+            msgs.push(Msg::Syn { digest: vec![de(x, 1), de(y, 2)], cluster_id: "c".into() });
+        }
     }
     msgs.push(Msg::Syn { digest: many_member_digest(500), cluster_id: "c".into() });
     msgs.push(Msg::Syn { digest: many_member_digest(1000), cluster_id: "c".into() });
@@ -366,7 +385,7 @@ pub fn long_strings(want: &[&str], tier: Tier) -> Part {
 }
 
 /// Part 3: real emissions. States are installed on a real node (own keys through the public API),
-/// its real SYN-ACK / ACK / SYN are encoded by the real encoder and read by the independent one.
+/// the node also holds copies, with data, of members of every address class and of two pairs of members sharing an address (a restarted node's two incarnations); its real SYN-ACK / ACK / SYN are encoded by the real encoder and read by the independent one.
 pub fn real_emissions(want: &[&str], tier: Tier, deadline: Instant) -> Part {
     let mut part = Part::new("wire/real-emissions");
     part.rule = "a real node owning 0..4 keys whose key/value lengths run over the length classes (three contents; all statuses), or 64..3,000 (thorough 20,000) entries whose operation stream is up to ~10 MB (thorough ~30 MB, filling the datagram) before compression, answers a real SYN: its SYN, SYN-ACK and ACK are serialized by the real encoder; the independent decoder must read exactly the in-memory message (message view), serialized_len() must equal the bytes written, and real decode(real encode(m)) == m; non-trivial = emitted messages whose delta carries at least one key-value".into();
@@ -422,12 +441,18 @@ pub fn real_emissions(want: &[&str], tier: Tier, deadline: Instant) -> Part {
             let mut node = Node::new(&owner_ids[ci % owner_ids.len()], &NodeOpts::default());
             // the owner also knows (and advertises, with data) members whose ids use every address class
             {
-                let others = ids();
+                let mut others = ids();
+                let plain = others.len();
+                for (a, b) in twins() {
+                    others.push(a);
+                    others.push(b);
+                }
                 let digest: Vec<DigestEntry> = others.iter().map(|id| DigestEntry { id: id.clone(), heartbeat: 1, gc: 0, mv: 0 }).collect();
                 node.cc.verif_process_message(real::build_real(&Msg::Syn { digest, cluster_id: "c".into() }).unwrap());
                 let mut ops = vec![];
                 for (k, id) in others.iter().enumerate() {
-                    if (k + ci) % 3 == 0 {
+                    // (the members sharing an address always carry data, so that both are in every delta)
+                    if (k + ci) % 3 == 0 || k >= plain {
                         ops.push(Op::Node { id: id.clone(), gc: 0, from: 0 });
                         ops.push(Op::Kv { key: "mk".into(), value: "mv".into(), version: 1 + k as u64, status: (k % 3) as u8 });
                     }
